@@ -4,7 +4,7 @@
    boolean test is enough for the composition theorems to apply.  c02_ref_case then evaluates the textbook program on
    what the implementation returned (cost, flows, nodal balance). *)
 From Coq Require Import QArith Qabs ZArith List Lia Lqa Bool String Arith.
-From EAO Require Import Num LP Mapping Dcf Grid Assets StorageProofs Portfolio Ref Reference Cert Corr.
+From EAO Require Import Num LP Mapping Dcf Grid Assets StorageProofs Portfolio Ref Reference RefCoarse Cert Corr.
 Import ListNotations.
 Open Scope Q_scope.
 
@@ -157,6 +157,110 @@ Proof.
     apply negb_true_iff. assumption.
 Qed.
 
+(* ---------- assets on a coarser frequency (RefCoarse.v) ---------- *)
+Definition u_rg (u : uspec) : rgrid :=
+  match u with USimple rg _ | UContract rg _ _ _ | UMulti rg _ _ _ _ _ | UStorage rg _ | UTransport rg _ | UExtTransport rg _ _ _ => rg end.
+
+(* the same asset on the same steps read as a fine grid, prices averaged over the minor steps
+   (take periods on a coarse grid are not covered) *)
+Definition fine_of (g : grid) (u : uspec) : option uspec :=
+  match u with
+  | USimple rg p => Some (USimple (fine_rg rg) (fine_contract_p g rg p))
+  | UTransport rg p => Some (UTransport (fine_rg rg) (fine_transport_p g rg p))
+  | UStorage rg p => Some (UStorage (fine_rg rg) (fine_storage_p g rg p))
+  | _ => None
+  end.
+
+Definition mk_unit_c (g : grid) (u : uspec) : option unit_ :=
+  match rg_minor (u_rg u) with
+  | None => mk_unit g u
+  | Some groups =>
+      match fine_of g u with
+      | Some u0 =>
+          match mk_unit g u0 with
+          | Some un0 =>
+              match extend_minor (g_dt g) (u_rg u) (ap_map (u_prob un0)) with
+              | Some mp' => Some (coarse_unit un0 (g_dt g) (u_rg u) groups mp')
+              | None => None end
+          | None => None end
+      | None => None end
+  end.
+
+Definition unit_hyps_c (g : grid) (u : uspec) : bool :=
+  match rg_minor (u_rg u) with
+  | None => unit_hyps g u
+  | Some groups =>
+      match fine_of g u with
+      | Some u0 => unit_hyps g u0 && nodup_nat_b (rg_I (u_rg u)) && forallb (fun i => Nat.ltb i (g_T g)) (rg_I (u_rg u)) &&
+                   Nat.eqb (List.length groups) (rg_T (u_rg u)) && negb (Nat.eqb (g_T g) 1)
+      | None => false end
+  end.
+
+Theorem mk_unit_c_ok g u un : mk_unit_c g u = Some un -> unit_hyps_c g u = true -> u_ok un.
+Proof.
+  unfold mk_unit_c, unit_hyps_c. destruct (rg_minor (u_rg u)) as [groups|] eqn:Em; [|apply mk_unit_ok].
+  destruct (fine_of g u) as [u0|]; [|discriminate]. intros Hm Hh.
+  destruct (mk_unit g u0) as [un0|] eqn:E0; [|discriminate].
+  destruct (extend_minor (g_dt g) (u_rg u) (ap_map (u_prob un0))) as [mp'|] eqn:Ee; [|discriminate]. inversion Hm; subst un. clear Hm.
+  split_andb.
+  apply coarse_unit_ok; [apply (mk_unit_ok g u0 un0 E0); assumption|exact Em|apply nodup_nat_b_spec; assumption|exact Ee].
+Qed.
+
+(* the coarse unit carries exactly the problem the model builder gives for the coarse grid (the builder is what the
+   correspondence check compares with the implementation) *)
+Theorem mk_unit_c_simple_is_builder g rg p un a :
+  mk_unit_c g (USimple rg p) = Some un -> unit_hyps_c g (USimple rg p) = true -> simple_contract g rg p = Some a ->
+  ap_lp (u_prob un) = ap_lp a /\ ap_map (u_prob un) = ap_map a.
+Proof.
+  unfold mk_unit_c, unit_hyps_c. cbn [u_rg fine_of]. destruct (rg_minor rg) as [groups|] eqn:Em.
+  - intros Hm Hh Hb. split_andb.
+    assert (Hnd : NoDup (rg_I rg)) by (apply nodup_nat_b_spec; assumption).
+    assert (Hlt : forall i, In i (rg_I rg) -> (i < g_T g)%nat) by (apply all_lt_spec; assumption).
+    assert (Lg : List.length groups = rg_T rg) by (apply Nat.eqb_eq; assumption).
+    destruct (simple_contract_coarse g rg p a groups Em Hnd Hlt Lg Hb) as (a0 & B0 & EL & EE).
+    cbn [mk_unit] in Hm. rewrite B0 in Hm.
+    change (mkvec (fine_rg rg) (cp_max (fine_contract_p g rg p)) None true) with (mkvec rg (cp_max p) None true) in Hm.
+    change (mkvec (fine_rg rg) (cp_min (fine_contract_p g rg p)) None true) with (mkvec rg (cp_min p) None true) in Hm.
+    change (mkvec (fine_rg rg) (cp_extra (fine_contract_p g rg p)) (Some 0) false) with (mkvec rg (cp_extra p) (Some 0) false) in Hm.
+    destruct (mkvec rg (cp_max p) None true); [|discriminate]. destruct (mkvec rg (cp_min p) None true); [|discriminate].
+    destruct (mkvec rg (cp_extra p) (Some 0) false); [|discriminate]. cbn [u_prob] in Hm. rewrite EE in Hm.
+    inversion Hm; subst un. cbn [coarse_unit u_prob ap_lp ap_map]. split; [exact EL|reflexivity].
+  - intros Hm _ Hb. cbn [mk_unit] in Hm. rewrite Hb in Hm.
+    destruct (mkvec rg (cp_max p) None true); [|discriminate]. destruct (mkvec rg (cp_min p) None true); [|discriminate].
+    destruct (mkvec rg (cp_extra p) (Some 0) false); [|discriminate]. inversion Hm; subst un. cbn [u_prob]. split; reflexivity.
+Qed.
+
+Theorem mk_unit_c_transport_is_builder g rg p un a :
+  mk_unit_c g (UTransport rg p) = Some un -> unit_hyps_c g (UTransport rg p) = true -> transport g rg p = Some a ->
+  ap_lp (u_prob un) = ap_lp a /\ ap_map (u_prob un) = ap_map a.
+Proof.
+  unfold mk_unit_c, unit_hyps_c. cbn [u_rg fine_of]. destruct (rg_minor rg) as [groups|] eqn:Em.
+  - intros Hm Hh Hb. split_andb.
+    assert (Hnd : NoDup (rg_I rg)) by (apply nodup_nat_b_spec; assumption).
+    assert (Hlt : forall i, In i (rg_I rg) -> (i < g_T g)%nat) by (apply all_lt_spec; assumption).
+    assert (Lg : List.length groups = rg_T rg) by (apply Nat.eqb_eq; assumption).
+    assert (HT1 : g_T g <> 1%nat) by (apply Nat.eqb_neq; apply negb_true_iff; assumption).
+    destruct (transport_coarse g rg p a groups Em Hnd Hlt Lg HT1 Hb) as (a0 & B0 & EL & EE).
+    cbn [mk_unit] in Hm. rewrite B0 in Hm. cbn [u_prob] in Hm. rewrite EE in Hm.
+    inversion Hm; subst un. cbn [coarse_unit u_prob ap_lp ap_map]. split; [exact EL|reflexivity].
+  - intros Hm _ Hb. cbn [mk_unit] in Hm. rewrite Hb in Hm. inversion Hm; subst un. cbn [u_prob]. split; reflexivity.
+Qed.
+
+Theorem mk_unit_c_storage_is_builder g rg p un a :
+  mk_unit_c g (UStorage rg p) = Some un -> unit_hyps_c g (UStorage rg p) = true -> storage g rg p = Some a ->
+  ap_lp (u_prob un) = ap_lp a /\ ap_map (u_prob un) = ap_map a.
+Proof.
+  unfold mk_unit_c, unit_hyps_c. cbn [u_rg fine_of]. destruct (rg_minor rg) as [groups|] eqn:Em.
+  - intros Hm Hh Hb. split_andb.
+    assert (Hnd : NoDup (rg_I rg)) by (apply nodup_nat_b_spec; assumption).
+    assert (Hlt : forall i, In i (rg_I rg) -> (i < g_T g)%nat) by (apply all_lt_spec; assumption).
+    assert (Lg : List.length groups = rg_T rg) by (apply Nat.eqb_eq; assumption).
+    destruct (storage_coarse g rg p a groups Em Hnd Hlt Lg Hb) as (a0 & B0 & EL & EE).
+    cbn [mk_unit] in Hm. rewrite B0 in Hm. cbn [u_prob] in Hm. rewrite EE in Hm.
+    inversion Hm; subst un. cbn [coarse_unit u_prob ap_lp ap_map]. split; [exact EL|reflexivity].
+  - intros Hm _ Hb. cbn [mk_unit] in Hm. rewrite Hb in Hm. inversion Hm; subst un. cbn [u_prob]. split; reflexivity.
+Qed.
+
 Fixpoint seq_units (l : list (option unit_)) : option (list unit_) :=
   match l with
   | [] => Some []
@@ -164,13 +268,13 @@ Fixpoint seq_units (l : list (option unit_)) : option (list unit_) :=
   | None :: _ => None
   end.
 
-Lemma seq_units_ok g us : forall units, seq_units (map (mk_unit g) us) = Some units -> forallb (unit_hyps g) us = true -> Forall u_ok units.
+Lemma seq_units_ok g us : forall units, seq_units (map (mk_unit_c g) us) = Some units -> forallb (unit_hyps_c g) us = true -> Forall u_ok units.
 Proof.
   induction us as [|u us IH]; intros units H Hh; cbn [map seq_units forallb] in *.
   - inversion H. constructor.
-  - destruct (mk_unit g u) as [un|] eqn:E; [|discriminate].
-    destruct (seq_units (map (mk_unit g) us)) as [r|] eqn:Er; [|discriminate]. inversion H; subst units.
-    apply andb_true_iff in Hh. destruct Hh as [H1 H2]. constructor; [exact (mk_unit_ok g u un E H1)|apply IH; auto].
+  - destruct (mk_unit_c g u) as [un|] eqn:E; [|discriminate].
+    destruct (seq_units (map (mk_unit_c g) us)) as [r|] eqn:Er; [|discriminate]. inversion H; subst units.
+    apply andb_true_iff in Hh. destruct Hh as [H1 H2]. constructor; [exact (mk_unit_c_ok g u un E H1)|apply IH; auto].
 Qed.
 
 (* blocks of x by the numbers of variables *)
@@ -188,7 +292,7 @@ Qed.
 
 (* the run-time facts that put a generated portfolio under the composition theorems *)
 Theorem c02_hyps_sound g us units :
-  seq_units (map (mk_unit g) us) = Some units -> forallb (unit_hyps g) us = true -> nodup_b (map u_name units) = true ->
+  seq_units (map (mk_unit_c g) us) = Some units -> forallb (unit_hyps_c g) us = true -> nodup_b (map u_name units) = true ->
   Forall u_ok units /\ NoDup (map u_name units).
 Proof. intros H1 H2 H3. split; [exact (seq_units_ok g us units H1 H2)|apply nodup_b_spec; exact H3]. Qed.
 
@@ -198,13 +302,13 @@ Definition find_unit (units : list unit_) (ys : list vec) (nm : string) : option
 (* evaluation on what the implementation returned: x (solver), value, dispatch table *)
 Definition c02_ref_case (g : grid) (us : list uspec) (nodes : list string) (steps : list nat)
     (x : vec) (value : Q) (tab : list (string * string * vec)) (eps : Q) : list bool :=
-  match seq_units (map (mk_unit g) us) with
+  match seq_units (map (mk_unit_c g) us) with
   | None => [false; false; false; false; false; false]
   | Some units =>
       let ns := map (fun u => nvars (ap_lp (u_prob u))) units in
       let xs := split_by ns x in
       let ys := map (fun ux => u_dec (fst ux) (snd ux)) (combine units xs) in
-      [ forallb (unit_hyps g) us;
+      [ forallb (unit_hyps_c g) us;
         nodup_b (map u_name units);
         Nat.eqb (List.length x) (fold_right Nat.add 0%nat ns);
         qclose eps (ref_cost units ys) (- value);
